@@ -24,13 +24,24 @@ func init() {
 			}
 			defer w.close()
 			idp := w.idp
+			switch kind {
+			case "500", "400", "reset", "stall", "empty", "truncated", "nojson", "huge", "noidtoken", "noaccesstoken", "noexpires", "expires_zero", "expires_null",
+				"expires_string", "norefresh", "refresh_null", "notokentype", "noidtoken_noexpires", "idtoken_null_noexpires", "idtoken_null", "idtoken_number",
+				"idtoken_empty", "access_null", "access_number", "idtoken_garbage", "aud_number", "aud_object", "azp_number", "azp_list_numbers", "groups_object",
+				"email_number", "exp_string", "ev_string", "sub_number":
+			default:
+				// a kind the driver cannot inject must never pass as "held"
+				env.emit(vpOut{ID: c.ID, Err: "unknown response kind " + kind})
+				return
+			}
 			arm := func() {
 				idp.mu.Lock()
 				defer idp.mu.Unlock()
 				switch kind {
 				case "500", "400", "reset", "stall", "empty", "truncated", "nojson", "huge":
 					idp.faults[call] = &vpFault{Kind: kind}
-				case "noidtoken", "noaccesstoken":
+				case "noidtoken", "noaccesstoken", "noexpires", "expires_zero", "expires_null", "expires_string", "norefresh", "refresh_null", "notokentype",
+					"noidtoken_noexpires", "idtoken_null_noexpires", "idtoken_null", "idtoken_number", "idtoken_empty", "access_null", "access_number":
 					idp.faults[map[string]string{"token_code": "code", "token_refresh": "refresh"}[call]+"_body"] = &vpFault{Kind: kind}
 				case "idtoken_garbage":
 					idp.garbageIDToken = true
